@@ -399,12 +399,14 @@ func (r *FileRestorer) updateImports() error {
 	deleteBlocks := map[dst.Decl]bool{}
 
 	// update / delete any import specs from all blocks
+	specFound := map[string]bool{} // paths that already have a spec: a path imported twice keeps only its first spec
 	for _, block := range blocks {
 		specs := make([]dst.Spec, 0, len(block.Specs))
 		for _, spec := range block.Specs {
 			spec := spec.(*dst.ImportSpec)
 			path := mustUnquote(spec.Path.Value)
-			if importsRequired[path] {
+			if importsRequired[path] && (!specFound[path] || path == "C") {
+				specFound[path] = true
 				if spec.Name == nil && aliases[path] != "" {
 					// missing alias
 					spec.Name = &dst.Ident{Name: aliases[path]}
